@@ -25,6 +25,7 @@ def classify(prop, key, shape):
     if scope.startswith('DUP'): return 'D19'
     if scope.startswith('HIST'): return 'D24'
     if scope=='deep nesting': return 'D28' if (kind=='Abort' and 'depth 100000' in key) else None
+    if 'group-in-repeat' in shape and 'backref' in shape: return 'D9'
     if prop=='C16' and 'nullable-loop' in shape: return 'D24'
     if 'nullable-loop' in shape: return 'D17'
     if prop=='C03' and kind=='GroupShouldBeAbsent' and 'group-in-repeat' not in shape: return 'D22'
